@@ -111,6 +111,8 @@ finding(["C16"], "L3", "tensor.Copy@copyDense(%dt, %ts) ⊨ %ts.DataOrder().HasS
 finding(["C16"], "L4", "tensor.ToMat64@mat.NewDense( ?$t.DataOrder().IsColMajor()", "ToMat64 hands column-major storage to the row-major mat.Dense", "without a test of $t.DataOrder().IsColMajor()", 18)
 
 FIXED = [
+ {"property":"C08","commit":"7ea84b4","rule":"DA","key":"internal/execution.(E).ArgmaxIterMasked#newMask, internal/execution.(E).ArgminIterMasked#newMask","what":"fixed: property=C08 7ea84b4 the axis-wise masked arg-reductions collected the lane's mask in newMask and passed the whole tensor's mask to the kernel: Argmax(1) of [[9 1 2] [3 8 4]] with 9 and 8 masked returned [2 1] instead of [2 2] (DESIGN finding 55)"},
+ {"property":"C15","commit":"7ea84b4","rule":"DA","key":"internal/execution.(E).ArgmaxIterMasked#newMask","what":"fixed: property=C15 7ea84b4 same defect seen from C15: a masked element was returned as the arg-maximum of its lane (DESIGN finding 55)"},
  {"property":"C08","commit":"fc2883a","rule":"K9","key":"internal/execution.reduceDefault/*","what":"fixed: property=C08 fc2883a the middle-axis reduction kernel reduceDefault<T> (all 18 element types) jumped by stride instead of (dimSize-1)*stride between output groups: Sum along axis 2 of a (2,3,4,5) tensor returned 20 wrong values of 30; right only when the reduced axis has length 2 (DESIGN finding 54)"},
  {"property":"C03","commit":"b05a7ef","rule":"SV","key":"tensor.(*Dense).T#%transform","what":"fixed: property=C03 b05a7ef Dense.T installed a transform computed before Transpose() materialised the pending lazy transpose: a(2,3,4).T(1,2,0); a.T(1,2,0) had 22 of 24 elements in the wrong place (DESIGN finding 52)"},
  {"property":"C03","commit":"cd7cd28","rule":"T7","key":"tensor.(*Dense).T#inverse-test","what":"fixed: property=C03 cd7cd28 Dense.T recognised the inverse of the pending transpose by comparing shapes: a(2,2,2).T(1,2,0); a.T(1,2,0) was undone to the identity instead of composed, 6 of 8 elements wrong (DESIGN finding 53)"},
